@@ -234,7 +234,10 @@ def run_segment(ch):
     pb = path.encode('utf-8')
     extent = ch.pick('extent', ['typical', 'zero', 'one', 'to_eof', 'whole_file'])
     img.null()
-    interp = img.add(eg.Sec('.interp', 1, data=pb + b'\0', flags=2, addr=0x400200, file_align=ch.pick('interp_align', [1, 8])))
+    # the segment may be larger than the path: NUL padding after it (a loader patched in place) or more bytes of the file behind the terminator
+    iext = ch.pick('interp_extent', ['exact', 'nul_padded', 'spans_more'])
+    idata = pb + b'\0' + {'exact': b'', 'nul_padded': b'\0\0\0', 'spans_more': b'GNU\0tail-bytes'}[iext]
+    interp = img.add(eg.Sec('.interp', 1, data=idata, flags=2, addr=0x400200, file_align=ch.pick('interp_align', [1, 8])))
     blob = img.add(eg.Sec('.blob', 1, data=eg.filler(SEED + 3, 150), flags=2, addr=0x400400, file_align=1))
     img.add_shstrtab()
     img.ph_place = ch.pick('ph_place', ['after_ehdr', 'after_data'])
@@ -265,8 +268,8 @@ def run_segment(ch):
     if g != path:
         fails.append(('get_interp_name()', path, g))
     g0 = guarded(lambda: s0.data())
-    if g0 != pb + b'\0':
-        fails.append(('interp.data()', pb + b'\0', g0))
+    if g0 != idata:
+        fails.append(('interp.data()', idata, g0))
     s1 = guarded(elf.get_segment, 1)
     g1 = guarded(lambda: s1.data())
     exp = data[probe.offset:probe.offset + probe.filesz]
